@@ -804,14 +804,16 @@ def ob_cumulative(P, N):
         ddf, pdf = build(sizes, mask)
         f = _cum_flags(sizes, mask)
         sel = {"series": lambda x: x.a, "frame": lambda x: x, "onecol": lambda x: x[["a"]]}
-        for kind in ("series", "frame", "onecol"):
-            for op in CUM_OPS:
-                for sk in (True, False):
-                    if SKIP_KNOWN and _cum_known(kind, op, sk, f):
-                        out.append("known")
-                        continue
-                    lab = f"{kind}.{op}(skipna={sk}) sizes={sizes} nan={mask}"
-                    out.append(decide_public(e, lab, lambda: getattr(sel[kind](ddf), op)(skipna=sk), lambda: getattr(sel[kind](pdf), op)(skipna=sk)))
+        # two passes: first every variant OUTSIDE the regions of the open known finding C46-cumulative-holes, then (last, so that the clauses
+        # above are also decided on such inputs) the variants inside them; a path has such a variant iff cum_multi == 1
+        for inside in (False, True):
+            for kind in ("series", "frame", "onecol"):
+                for op in CUM_OPS:
+                    for sk in (True, False):
+                        if bool(_cum_known(kind, op, sk, f)) != inside:
+                            continue
+                        lab = f"{kind}.{op}(skipna={sk}) sizes={sizes} nan={mask}"
+                        out.append(decide_public(e, lab, lambda: getattr(sel[kind](ddf), op)(skipna=sk), lambda: getattr(sel[kind](pdf), op)(skipna=sk)))
 
     return mk_public(f"cumulative[np<={P},n<={N}]", setup, body)
 
